@@ -195,6 +195,8 @@ func buildUniverse(M, N [32]byte) *universe {
 	u.add("G", ops(op(c1.id, 0)), outs(o1(2e8-10000-50000)))                     // grandchild, high fee (CPFP)
 	g2 := u.add("G2", ops(op(u.by["G"].id, 0)), outs(o1(2e8-10000-50000-10000))) // fourth member of the chain T1 <- C1 <- G <- G2
 	_ = g2
+	u.add("L1", ops(op(t1.id, 1)), outs(o1(3e8-10000-1000)))                // leaf child on T1's second output: T1's descendants form a tree (leaf next to the chain C1 <- G <- G2)
+	u.add("T1top", ops(U(1)), outs(o1(2e8+3), o1(3e8-300003)))              // fee 300000: beats T1 and the whole tree below it
 	u.add("C1x", ops(op(t1.id, 0)), outs(o1(2e8-100000)))                   // replaces C1 (and G, G2): a middle member
 	u.add("Gx", ops(op(c1.id, 0)), outs(o1(2e8-10000-120000)))              // replaces G (and G2)
 	u.add("G2x", ops(op(u.by["G"].id, 0)), outs(o1(2e8-10000-50000-30000))) // replaces G2: the last member
@@ -1833,6 +1835,17 @@ func scripts(thorough bool) (l []script) {
 			l = append(l, script{"pkg", cat(h, "adv13h", "list", "tick")}, script{"pkg", cat(h, "adv13h", "tick")})
 		}
 	}
+	// tree: the replaced transaction's descendants form a tree - a leaf child next to a chain of
+	// three - in every arrival position of the leaf; the replacement must take all of them along
+	for pos := 0; pos <= 3; pos++ {
+		chain := []string{"net:C1", "net:G", "net:G2"}
+		h := []string{"net:T1"}
+		h = append(h, chain[:pos]...)
+		h = append(h, "net:L1")
+		h = append(h, chain[pos:]...)
+		l = append(l, script{"tree", cat2(h, "net:T1top", "list", "mine:best")}, script{"tree", cat2(h, "list", "net:T1top", "list")},
+			script{"tree", cat2(h, "net:C1x", "list")}, script{"tree", cat2(h, "net:T1top", "reload", "list")})
+	}
 	// badfile: the pool file is damaged at every boundary class between save and load; afterwards
 	// double spends, children and a replacement arrive
 	for _, where := range []string{"hdr", "txmid", "tx1", "sections", "tail5", "flip-hdr", "flip-cnt", "flip-rejcnt", "flip-end"} {
@@ -1867,6 +1880,8 @@ func scripts(thorough bool) (l []script) {
 	}
 	return
 }
+
+func cat2(a []string, b ...string) []string { return append(append([]string{}, a...), b...) }
 
 func uniq(l []string) (r []string) {
 	seen := map[string]bool{}
